@@ -15,8 +15,17 @@ impl Unit {
     pub fn new(a: f64, b: f64) -> Unit {
         Unit { a, b, av: 1.0, big: a * 1.0e6 + b }
     }
+    /// Affine, except that a warped unit sends the lattice spike 10^6 to an arbitrary larger magnitude.
+    /// A warped unit is still strictly monotone, so every fact the specification states about ties,
+    /// orderings, flatness and window membership carries over; exact values do not, and are not compared.
     pub fn price(&self, k: i64) -> f64 {
+        if self.warped() && k.abs() == BIG {
+            return self.big * (k.signum() as f64);
+        }
         self.a * (k as f64) + self.b
+    }
+    pub fn warped(&self) -> bool {
+        self.big != self.a * 1.0e6 + self.b
     }
     pub fn volume(&self, k: i64) -> f64 {
         self.av * (k as f64)
@@ -51,6 +60,20 @@ pub fn shift_ok(kind: &str) -> bool {
 
 /// The unit list of a tier. Scale-only units come first; shifted ones are dropped for kinds
 /// that are not shift-covariant. RSI is tied to the seed of the model (a = 0.1 / seed).
+/// Warped units: only for the relational / range / finiteness / ordering checks (not for exact values).
+pub fn warped_units(tier: &str) -> Vec<Unit> {
+    let mut v = vec![
+        Unit { a: 1.0e-4, b: 0.0, av: 1.0, big: 1.5e4 + 1.0 / 3.0 },
+        Unit { a: 0.3, b: 0.0, av: 0.7, big: 1.0e9 / 3.0 },
+    ];
+    if tier == "thorough" {
+        v.push(Unit { a: 1.0, b: 0.0, av: 1e9, big: 1.0e17 });
+        v.push(Unit { a: 1.37, b: 0.0, av: 1e-3, big: 43000.0 });
+        v.push(Unit { a: 1e-3, b: 0.0, av: 1.0, big: 1.0e12 / 7.0 });
+    }
+    v
+}
+
 pub fn unit_list(tier: &str, seed: u64) -> Vec<Unit> {
     let mut v = vec![
         Unit::new(1.0, 0.0),
